@@ -82,11 +82,36 @@ fn case(t: &mut Tape, info: &mut CaseInfo) -> Result<(), String> {
             }
         }
         DifficultyAttributes::Mania(a) => {
-            if !invert && !hold_off {
-                let holds = objs.iter().filter(|h| !h.is_circle()).count() as u32;
-                if (a.n_objects, a.n_hold_notes) != (len as u32, holds) {
-                    return Err(format!("mania (objects, holds) {:?} vs recount {:?}", (a.n_objects, a.n_hold_notes), (len as u32, holds)));
+            // recount on the converted map after the documented HoldOff (every hold note becomes a note) and
+            // Invert (per column, every gap between consecutive note/hold-start/hold-end times becomes a hold
+            // note) transformations, applied in that order
+            let mut recount = (len as u32, objs.iter().filter(|h| !h.is_circle()).count() as u32);
+            if hold_off {
+                // objects that are neither notes nor hold notes do not survive HoldOff
+                recount = (objs.iter().filter(|h| h.is_circle() || h.is_hold_note()).count() as u32, 0);
+            }
+            if invert {
+                let cs = explicit.cs;
+                let columns = cs as usize;
+                let mut locations = vec![0u32; columns.max(1)];
+                for h in objs.iter() {
+                    let col = ((h.pos.x / (512.0 / cs)).floor().min(cs - 1.0)) as usize;
+                    if col < columns {
+                        locations[col] += match (h.is_circle(), h.is_hold_note()) {
+                            (true, _) => 1,
+                            (_, true) => 2 - u32::from(hold_off),
+                            _ => 0,
+                        };
+                    }
                 }
+                let n: u32 = locations.iter().take(columns).map(|l| l.saturating_sub(1)).sum();
+                recount = (n, n);
+            }
+            if (a.n_objects, a.n_hold_notes) != recount {
+                return Err(format!(
+                    "mania (objects, holds) {:?} vs recount {recount:?} (HoldOff: {hold_off}, Invert: {invert})",
+                    (a.n_objects, a.n_hold_notes)
+                ));
             }
             if hold_off && !invert && a.n_hold_notes != 0 {
                 return Err(format!("mania HoldOff leaves {} hold notes", a.n_hold_notes));
@@ -101,6 +126,26 @@ fn case(t: &mut Tape, info: &mut CaseInfo) -> Result<(), String> {
     let on_explicit = c.d.calculate(&explicit);
     same("calculate(&explicitly converted map) vs calculate_for_mode on the source", &on_explicit, &full)?;
     info.comparisons += 1;
+
+    // the gradual calculator counts the same map: max combo never decreases from value to value and the
+    // last value carries the full-map counts
+    if c.dspec.passed.is_none() && !super::common::skip_open_taiko(&c.map, &c.d, c.target, info)? {
+        let g = rosu_pp::GradualDifficulty::new_with_mode(c.d.clone(), &c.map, c.target).map_err(|e| format!("gradual ctor: {e}"))?;
+        let mut prev_combo = 0u32;
+        let mut last = None;
+        for (i, v) in g.enumerate() {
+            let combo = v.max_combo();
+            if combo < prev_combo {
+                return Err(format!("gradual value #{}: max combo {combo} below the previous value's {prev_combo}", i + 1));
+            }
+            prev_combo = combo;
+            last = Some(v);
+        }
+        if let Some(last) = last {
+            same("last gradual value vs full calculation (counts and all)", &last, &full)?;
+        }
+        info.comparisons += 1;
+    }
 
     // every n from 0 beyond the total
     let mut prev: Option<DifficultyAttributes> = None;
@@ -180,7 +225,7 @@ pub fn property() -> Property {
         id: "C14",
         subchecks: vec![SubCheck {
             name: "counts-and-prefixes",
-            rule: "G-MAP (all modes + converts, <=40 objects) x G-DIFF (HR/EZ, lazer mirror variants, key mods, HO, IN, Random) x every n in 0..total+3 plus u32::MAX and 2*total+7. Oracle: independent recount from the public hit_objects of the explicitly converted map (osu circles/sliders/spinners(+holds) per prefix; taiko max_combo = #hits; mania n_objects/n_hold_notes per prefix, HO => 0 holds; catch n_fruits = circles + sum(span_count+1)); counted units == min(n,total); every count non-decreasing in n; n > total => all fields same-value-equal to the unlimited result; is_convert flag iff converted. Non-trivial: a slider with >=1 repeat or a hold/spinner, and total >= 2.",
+            rule: "G-MAP (all modes + converts, <=40 objects) x G-DIFF (HR/EZ, lazer mirror variants, key mods, HO, IN, Random) x every n in 0..total+3 plus u32::MAX and 2*total+7. Oracle: independent recount from the public hit_objects of the explicitly converted map (osu circles/sliders/spinners(+holds) per prefix; taiko max_combo = #hits; mania n_objects/n_hold_notes per prefix and, for the full map, after modelling HoldOff (holds become notes) and Invert (per column: #locations-1 hold notes) in that order; catch n_fruits = circles + sum(span_count+1)); counted units == min(n,total); every count non-decreasing in n; n > total => all fields same-value-equal to the unlimited result; is_convert flag iff converted; the gradual calculator's max combo never decreases and its last value equals the full calculation (rare hours-long hold notes push the combo past 65535). Non-trivial: a slider with >=1 repeat or a hold/spinner, and total >= 2.",
             quick: 20_000,
             thorough: 100_000,
             tape_len: 1400,
